@@ -199,6 +199,10 @@ def r3_r5_recv_loop(ctx):
         ctx.evals(len(paths))
         for p in paths:
             sub = _submits(p, "store_payload")
+            if sub and not purged and sub[0].data["result"] not in p.heap["self.futs_in_progress"].values():
+                ctx.violation("C07.R3", fi.qual, loc(fi), "running store tracked",
+                              "the future of a submitted store is not recorded in futs_in_progress: a purge of that dataset would not wait for it (the dataset is resurrected)")
+                continue
             if bool(sub) == purged:
                 ctx.violation("C07.R3", fi.qual, loc(fi), "payload after purge",
                               f"a payload for a dataset that was {'already purged' if purged else 'not purged'} is {'stored (the dataset is resurrected after its purge)' if sub else 'dropped'}")
@@ -209,8 +213,12 @@ def r3_r5_recv_loop(ctx):
     for p in paths:
         sub = _submits(p, "send_payload")
         aw = p.heap["self.awaiting_confirmation"]
+        tracked = p.heap["self.futs_in_progress"]
         if p.exit[0] == "raise" or len(sub) != 1 or 7 not in aw:
             ctx.violation("C07.R3", fi.qual, loc(fi), "transmit command accepted", f"a transmit command leads to {len(sub)} submissions, awaiting={vkey(aw)[:80]}, exit={p.exit[0]}")
+        elif len(tracked) != 1 or list(tracked.values())[0] != sub[0].data["result"]:
+            ctx.violation("C07.R3", fi.qual, loc(fi), "running transfer tracked",
+                          f"the future of a submitted send is not recorded in futs_in_progress ({vkey(tracked)[:80]}): a purge would not wait for it and its outcome is never reaped")
         else:
             ctx.ok("C07.R3", loc(fi), "transmit command: recorded as awaiting confirmation and submitted once")
     # R4 purge
